@@ -222,3 +222,62 @@ Definition call_writes (bb : rect) (c : icall) : list (point * Z) :=
 
 Definition call_stream_len (c : icall) : nat :=
   match c with FillContiguous _ cs => length cs end.
+
+(* ---- C08: "every intermediate fits its Rust type" predicates, one conjunct per arithmetic site in source
+   order.  usize is taken as 32 bit (the narrowest usize the library is used with; a 64 bit usize only makes the
+   conditions weaker), so `as usize` / `as u32` casts between the two never truncate when the value is in_u32. *)
+
+(* image_raw.rs:197-199 bytes_per_row: `width as usize * bits_per_pixel`, `+ 7` *)
+Definition bytes_per_row_ok (width bpp : Z) : bool :=
+  in_u32 (width * bpp) && in_u32 (width * bpp + 7).
+
+(* image_raw.rs:146-147 new: bytes_per_row(..) `* size.height as usize` *)
+Definition raw_new_ok (bpp : Z) (s : size) : bool :=
+  bytes_per_row_ok (sw s) bpp && in_u32 (bytes_per_row (sw s) bpp * sh s).
+
+(* image_raw.rs:185-193 data_width: `bytes_per_row(..) as u32`, `* pixels_per_byte` *)
+Definition data_width_ok (img : image_raw) : bool :=
+  if ir_bpp img <? 8 then
+    bytes_per_row_ok (sw (ir_size img)) (ir_bpp img)
+    && in_u32 (bytes_per_row (sw (ir_size img)) (ir_bpp img))
+    && in_u32 (bytes_per_row (sw (ir_size img)) (ir_bpp img) * (8 / ir_bpp img))
+  else true.
+
+(* image_raw.rs:213 draw: `self.data_width() - self.size.width` (u32 subtraction) *)
+Definition raw_draw_ok (img : image_raw) : bool :=
+  data_width_ok img && (0 <=? data_width img - sw (ir_size img)).
+
+(* image_raw.rs:226-241 draw_sub_image: the `||` chain evaluates left to right and stops at the first true test;
+   `x as u32 + width`, `y as u32 + height`, `y as usize * data_width`, `+ x as usize`, `data_width - width as usize` *)
+Definition raw_draw_sub_image_ok (img : image_raw) (area : rect) : bool :=
+  if is_zero_sized area || (px (tl area) <? 0) || (py (tl area) <? 0) then true
+  else
+    in_u32 (px (tl area) + sw (sz area)) &&
+    (if px (tl area) + sw (sz area) >? sw (ir_size img) then true
+     else
+       in_u32 (py (tl area) + sh (sz area)) &&
+       (if py (tl area) + sh (sz area) >? sh (ir_size img) then true
+        else
+          data_width_ok img
+          && in_u32 (py (tl area) * data_width img)
+          && in_u32 (py (tl area) * data_width img + px (tl area))
+          && (0 <=? data_width img - sw (sz area)))).
+
+(* image_raw.rs:265-274 pixel: `p.y as usize * self.data_width() as usize`, `p.x as usize + ..` *)
+Definition raw_pixel_ok (img : image_raw) (p : point) : bool :=
+  if (px p <? 0) || (py p <? 0) || (px p >=? sw (ir_size img)) || (py p >=? sh (ir_size img)) then true
+  else data_width_ok img && in_u32 (py p * data_width img) && in_u32 (px p + py p * data_width img).
+
+(* image_raw.rs:301-303 ContiguousPixels::new: `initial_skip - 1` under `initial_skip > 0` *)
+Definition cp_new_ok (initial_skip : Z) : bool :=
+  if 0 <? initial_skip then 0 <=? initial_skip - 1 else true.
+
+(* image_raw.rs:330-346 next: `remaining_x -= 1`, `remaining_y -= 1`, `self.width - 1` (all u32) *)
+Definition cp_next_ok (st : cpix) : bool :=
+  if 0 <? cp_rx st then 0 <=? cp_rx st - 1
+  else if cp_ry st =? 0 then true
+  else (0 <=? cp_ry st - 1) && (0 <=? cp_width st - 1).
+
+(* sub_image.rs:64 `area.translate(self.area.top_left)`, translated.rs `area.translate(self.offset)`,
+   mod.rs Image::translate `self.offset + by`: i32 additions *)
+Definition padd_ok (a b : point) : bool := in_i32 (px a + px b) && in_i32 (py a + py b).
